@@ -720,7 +720,7 @@ fn explore_scenario(sc: Scenario, bound: u32, deadline: Instant) -> ScOut {
 
 #[derive(Default)]
 struct Pass {
-    bounds: (u32, u32),
+    bound: u32,
     n_scenarios: usize,
     execs: u64,
     steps: u64,
@@ -732,6 +732,7 @@ struct Pass {
     samples: Vec<Value>,
     capped: Vec<String>,
     violations: Vec<Violation>,
+    per_level: Vec<u64>,
 }
 
 fn main() {
@@ -766,28 +767,42 @@ fn main() {
 
     let thorough = run.tier == vcore::Tier::Thorough;
     let deadline = Instant::now() + Duration::from_secs_f64(run.remaining_s());
-    // passes of (bound for one writer, bound for two writers); a later pass
-    // re-explores everything at a higher bound and replaces the earlier
-    // numbers only when it completes
-    let passes: Vec<(u32, u32)> = if thorough { vec![(3, 2), (4, 3)] } else { vec![(2, 2)] };
-    let mut committed: Option<Pass> = None;
-    for (pi, (b1, b2)) in passes.iter().enumerate() {
-        if pi > 0 {
-            // a pass at bound+1 costs roughly 12x the previous one
-            let spent = run.elapsed();
-            if spent * 13.0 > run.budget_s {
+    // Passes: (writers per scenario, preemption bound, estimated cost relative
+    // to the same group's previous pass). The first pass of each group is
+    // mandatory; a later pass re-explores the group at a higher bound, is only
+    // attempted when its estimate fits the budget, and replaces the group's
+    // numbers only when it completes.
+    let passes: Vec<(usize, u32, f64)> = if thorough {
+        vec![(1, 3, 0.0), (2, 2, 0.0), (1, 4, 6.0), (1, 5, 6.0), (2, 3, 14.0)]
+    } else {
+        vec![(1, 2, 0.0), (2, 2, 0.0)]
+    };
+    let mut committed: BTreeMap<usize, Pass> = BTreeMap::new();
+    let mut last_cost: BTreeMap<usize, f64> = BTreeMap::new();
+    let mut gave_up: BTreeSet<usize> = BTreeSet::new();
+    for (group, bound, growth) in passes {
+        if gave_up.contains(&group) {
+            continue;
+        }
+        if committed.contains_key(&group) {
+            let est = last_cost[&group] * growth;
+            if run.elapsed() + est > run.budget_s {
                 run.cap_hit(&format!(
-                    "time budget: pass with preemption bounds {b1} (one writer) / {b2} (two writers) not attempted"
+                    "time budget: preemption bound {bound} for scenarios with {group} writer(s) not attempted (estimated {est:.0}s)"
                 ));
-                break;
+                gave_up.insert(group);
+                continue;
             }
         }
-        let scs = scenarios(thorough, *b1, *b2);
+        let t0 = run.elapsed();
+        let scs: Vec<(Scenario, u32)> = scenarios(thorough, bound, bound)
+            .into_iter()
+            .filter(|(sc, _)| sc.writers.len() == group)
+            .collect();
         let n_scenarios = scs.len();
-        // largest last: par_map pops from the end
         let outs = util::par_map(scs, util::n_threads(), |(sc, bound)| explore_scenario(sc, bound, deadline));
         let mut pass = Pass {
-            bounds: (*b1, *b2),
+            bound,
             n_scenarios,
             ..Default::default()
         };
@@ -804,6 +819,12 @@ fn main() {
             for h in &o.label_seqs {
                 pass.distinct.insert(util::fnv64(format!("{}/{h}", o.sc.name()).as_bytes()));
             }
+            for (i, n) in o.stats.per_level.iter().enumerate() {
+                if pass.per_level.len() <= i {
+                    pass.per_level.push(0);
+                }
+                pass.per_level[i] += n;
+            }
             let done = o.stats.completed_bound;
             if (o.stats.capped || done != Some(o.bound)) && o.violations.is_empty() {
                 pass.capped.push(format!("{} (bound {:?} of {})", o.sc.name(), done, o.bound));
@@ -815,11 +836,14 @@ fn main() {
             }
             pass.violations.extend(o.violations);
         }
+        last_cost.insert(group, run.elapsed() - t0);
         eprintln!(
-            "pass bounds {b1}/{b2}: {} executions, {} capped scenarios, {} violations at {:.1}s",
+            "pass {group} writer(s), bound {bound}: {} scenarios, {} executions, {} capped, {} violations, {:.1}s (total {:.1}s)",
+            n_scenarios,
             pass.execs,
             pass.capped.len(),
             pass.violations.len(),
+            run.elapsed() - t0,
             run.elapsed()
         );
         let complete = pass.capped.is_empty();
@@ -827,49 +851,55 @@ fn main() {
         for v in std::mem::take(&mut pass.violations) {
             run.violation(v);
         }
-        if complete || committed.is_none() {
-            committed = Some(pass);
+        if complete || !committed.contains_key(&group) {
+            committed.insert(group, pass);
         } else {
             run.cap_hit(&format!(
-                "time budget: pass with preemption bounds {b1}/{b2} stopped after {} executions ({} scenarios unfinished); its numbers are not included",
+                "time budget: preemption bound {bound} for scenarios with {group} writer(s) stopped after {} executions ({} scenarios unfinished); those executions are counted separately",
                 pass.execs,
                 pass.capped.len()
             ));
             run.add("executions_in_unfinished_higher_bound_pass", pass.execs);
+            gave_up.insert(group);
         }
         if has_violation {
             break;
         }
     }
-    let mut pass = committed.expect("at least one pass");
-    run.add("evaluations", pass.execs);
-    run.add("executions", pass.execs);
-    run.add("scheduling_steps", pass.steps);
-    run.add("executions_where_gc_reclaimed_something", pass.gc_deleted_execs);
-    run.add("executions_writer_generation_older_than_gc_floor", pass.older);
-    run.add("executions_writer_generation_at_or_after_gc_floor", pass.younger);
-    run.add("gc_error_notes", pass.notes);
-    for d in &pass.distinct {
-        run.distinct(*d);
+    let mut samples: Vec<Value> = Vec::new();
+    let mut n_scenarios = 0;
+    for (group, pass) in &mut committed {
+        run.add("evaluations", pass.execs);
+        run.add("executions", pass.execs);
+        run.add("scheduling_steps", pass.steps);
+        run.add("executions_where_gc_reclaimed_something", pass.gc_deleted_execs);
+        run.add("executions_writer_generation_older_than_gc_floor", pass.older);
+        run.add("executions_writer_generation_at_or_after_gc_floor", pass.younger);
+        run.add("gc_error_notes", pass.notes);
+        for d in &pass.distinct {
+            run.distinct(*d);
+        }
+        n_scenarios += pass.n_scenarios;
+        pass.samples.sort_by_key(|s| s.to_string());
+        // a spread of written-out cases: every 13th of the sorted list
+        samples.extend(pass.samples.iter().step_by(13).cloned());
+        let which = if *group == 1 { "one_writer" } else { "two_writers" };
+        run.set(&format!("executions_per_preemption_level_{which}"), json!(pass.per_level));
+        if pass.capped.is_empty() {
+            run.set(&format!("preemption_bound_completed_{which}"), json!(pass.bound));
+        } else {
+            run.cap_hit(&format!(
+                "time budget: {} scenario(s) with {group} writer(s) not explored to bound {}, e.g. {}",
+                pass.capped.len(),
+                pass.bound,
+                pass.capped.iter().take(3).cloned().collect::<Vec<_>>().join("; ")
+            ));
+        }
     }
-    pass.samples.sort_by_key(|s| s.to_string());
-    // a spread of written-out cases: every 7th of the sorted list
-    for s in pass.samples.iter().step_by(7) {
-        run.sample(s.clone());
+    for s in samples {
+        run.sample(s);
     }
-    run.set("scenarios", json!(pass.n_scenarios));
-    if pass.capped.is_empty() {
-        run.set("preemption_bound_completed_single_writer", json!(pass.bounds.0));
-        run.set("preemption_bound_completed_two_writers", json!(pass.bounds.1));
-    } else {
-        run.cap_hit(&format!(
-            "time budget: {} scenario(s) not explored to their bound ({}/{}), e.g. {}",
-            pass.capped.len(),
-            pass.bounds.0,
-            pass.bounds.1,
-            pass.capped.iter().take(3).cloned().collect::<Vec<_>>().join("; ")
-        ));
-    }
+    run.set("scenarios", json!(n_scenarios));
     run.rule(
         "scenario = wrapper x start state with garbage {both keys, b absent, legacy a} x clock {advancing, frozen during the race} x \
          writers {one of put/multipart-complete/copy/delete/rename on either key; or two of them (same and different keys)} x \
